@@ -175,7 +175,10 @@ def run(prop: str, tier: str, extra=None) -> int:
         # whole simulations with one operator per container: DAGs whose branches run side by side, and a merge of hundreds of operators
         from . import driver_sched
         sim = driver_sched.gen_traces(64 if tier == "quick" else 1600, common.seed() + 101, policies=["overbook", "priority", "naive"],
-                                      flavours=(("branchy", 0.5), ("wide", 0.25), ("mixed", 0.25)))
+                                      flavours=(("branchy", 0.6), ("mixed", 0.4)))
+        # (under the priority policy: a tenth of a pool per container keeps a few dozen containers alive at once; overbook would start a
+        #  thousand, and the monitor's kill-order and accounting clauses are quadratic in the containers of a pool)
+        sim += driver_sched.gen_traces(48 if tier == "quick" else 1200, common.seed() + 102, policies=["priority"], flavours=(("wide", 1.0),))
         for tr in sim:
             for e in tr:
                 e["tid"] += 2 * 10**7
